@@ -540,12 +540,14 @@ class Report:
             self.violations.append((class_key, description, replay))
         return True
 
-    def broken_obligation(self, what, detail, found_input=False):
+    def broken_obligation(self, what, detail, found_input=False, extra=None):
         # at most three witnesses per obligation / correspondence stream
         if sum(1 for c, _, _ in self.violations if c == "obligation/" + what) >= 3:
             return
-        self.violations.append(("obligation/" + what, detail, {"kind": "proof-or-correspondence", "what": what,
-                                                               "detail": detail, "no_failing_input_found": not found_input}))
+        rp = {"kind": "proof-or-correspondence", "what": what, "detail": detail, "no_failing_input_found": not found_input}
+        if extra:
+            rp.update(extra)
+        self.violations.append(("obligation/" + what, detail, rp))
 
     def finish(self, extra_cov=None, exit_now=True):
         os.makedirs(EVIDENCE_DIR, exist_ok=True)
